@@ -41,9 +41,10 @@ type Case struct {
 	ExplicitLvl bool     `json:"explicit_level"` // configs sent with an explicit privilege level
 }
 
-var failPool = []string{"% Invalid input", "Error:", "err", "% Incomplete command", "Invalid", "syntax error, expecting", "ошибка", "[edit]", "failed", "fail"}
+// (some with significant outer blanks: " error" is not contained in "crc-error 0")
+var failPool = []string{"% Invalid input", "Error:", "err", "% Incomplete command", "Invalid", "syntax error, expecting", "ошибка", "[edit]", "failed", "fail", " error", "% ", "denied "}
 
-var apis = []string{"gcmd", "gcmds", "gfile", "ncmds", "ncfgs", "ncfg", "ncfgfile"}
+var apis = []string{"gcmd", "gcmds", "gfile", "ncmd", "ncmds", "ncmdsfile", "ncfgs", "ncfg", "ncfgfile"}
 
 var (
 	execRe = regexp.MustCompile(`(?im)^[a-z0-9\-]{1,20}>\s*$`)
@@ -76,7 +77,7 @@ func gen(t *rapid.T) Case {
 	pats := []*regexp.Regexp{execRe, confRe}
 	n := rapid.IntRange(1, 8).Draw(t, "nCmds")
 
-	if c.API == "gcmd" {
+	if c.API == "gcmd" || c.API == "ncmd" {
 		n = rapid.IntRange(1, 3).Draw(t, "nCmds1")
 	}
 
@@ -266,11 +267,22 @@ func run(c Case) ev.Verdict {
 
 		defer func() { _ = d.Close() }()
 
-		if c.ExplicitLvl && c.API != "ncmds" {
+		if c.ExplicitLvl && c.API != "ncmds" && c.API != "ncmd" && c.API != "ncmdsfile" {
 			oo = append(oo, opoptions.WithPrivilegeLevel("configuration"))
 		}
 
 		switch c.API {
+		case "ncmd":
+			for _, cm := range cmds {
+				r, e := d.SendCommand(cm, oo...)
+				if e != nil {
+					return ev.Fail("SendCommand: %v", e)
+				}
+
+				singles = append(singles, r)
+			}
+		case "ncmdsfile":
+			multi, err = d.SendCommandsFromFile(file, oo...)
 		case "ncmds":
 			multi, err = d.SendCommands(cmds, oo...)
 		case "ncfgs":
@@ -304,7 +316,7 @@ func run(c Case) ev.Verdict {
 	}
 
 	sent := len(c.Cmds)
-	if c.StopOnFail && firstFail >= 0 && c.API != "gcmd" {
+	if c.StopOnFail && firstFail >= 0 && c.API != "gcmd" && c.API != "ncmd" {
 		sent = firstFail + 1
 	}
 
@@ -407,6 +419,37 @@ func run(c Case) ev.Verdict {
 
 		if (collapsed.Failed != nil) != anyFailed {
 			return ev.Fail("collapsed config response Failed=%v, members failed=%v", collapsed.Failed, anyFailed)
+		}
+
+		if collapsed.Failed != nil {
+			// "reports the same": the failed members, all of them, in order
+			var failedIdx []int
+
+			for i := 0; i < sent; i++ {
+				if wantFailed[i] {
+					failedIdx = append(failedIdx, i)
+				}
+			}
+
+			var (
+				me *response.MultiOperationError
+				oe *response.OperationError
+			)
+
+			switch {
+			case errors.As(collapsed.Failed, &me):
+				if len(me.Operations) != len(failedIdx) {
+					return ev.Fail("collapsed config response lists %d failed operations, want the %d failed members %v", len(me.Operations), len(failedIdx), failedIdx)
+				}
+
+				for k, i := range failedIdx {
+					if me.Operations[k].Input != cmds[i] {
+						return ev.Fail("collapsed config response: failed operation %d is %q, want member %q", k, me.Operations[k].Input, cmds[i])
+					}
+				}
+			case errors.As(collapsed.Failed, &oe) && len(failedIdx) > 1:
+				return ev.Fail("collapsed config response reports the single failure %q, but %d members failed (%v)", oe.Input, len(failedIdx), failedIdx)
+			}
 		}
 
 		if wantRes := strings.Join(want[:sent], "\n"); collapsed.Result != wantRes {
